@@ -1,37 +1,30 @@
 (* Props/C18.v -- conversion to and from serde_json::Value round-trips without loss or panic.
-   Statements only.  Model: Model/SerdeValue.v (from_sj, into_sj; panic sites 1 and 2).
-   serde_json values: Spec/SerdeJsonValue.v (sj, wf_sj = what the Rust types guarantee:
-   integer ranges, finite floats, keys strictly increasing).  Specification:
-   Spec/SerdeRoundTrip.v (detour_ok = equal up to object entry order and number spelling).
-   Dependencies as arguments: [fmt_ryu] (serde_json Number Display), [sj_parse] (serde_json
-   number parser), [lossy] (json-number as_f64_lossy).  Known classes: K3 nearest double
-   infinite (panic); K5 / K6 a float spelling outside serde_json's exact parsing range. *)
+   Statements only.  Model: Model/SerdeValue.v (from_sj with its panic site 1, into_sj
+   which has none).  serde_json values: Spec/SerdeJsonValue.v (sj, wf_sj = what the Rust
+   types guarantee: integer ranges, finite floats, keys strictly increasing).
+   Specification: Spec/SerdeRoundTrip.v (detour_ok = equal up to object entry order and
+   number spelling).  std's str::parse::<f64> is correctly rounded and modelled by the
+   reference Spec/NumSpelling.dbl.  Dependency as argument: [fmt_ryu] (serde_json Number
+   Display); in the hypothesis on it x ranges over the doubles that occur: any f64 bit
+   pattern (canonical_f64) or the nearest double of a spelling. *)
 From Coq Require Import SpecFloat.
 From JsonSyntax Require Import Base.Prelude Base.Value Base.Float64 Spec.NumSpelling
   Spec.SerdeJsonValue Spec.SerdeRoundTrip Model.SerdeValue
   Spec.PermEq Proofs.SerdeJsonProofs Proofs.SerdeWitnesses.
 
-(* In the hypotheses on [fmt_ryu], x ranges over the doubles that occur: any f64 bit pattern
-   (canonical_f64) or the nearest double of a spelling. *)
-
 (* serde_json -> json-syntax -> serde_json returns an equal value *)
-Theorem C18_there_and_back : forall lossy sj_parse fmt_ryu,
+Theorem C18_there_and_back : forall fmt_ryu,
   (forall x, sf_is_finite x = true -> (canonical_f64 x = true \/ exists n, x = dbl n) ->
      valid_number (fmt_ryu x) = true /\ is_int64 (fmt_ryu x) = false /\ dbl (fmt_ryu x) = x) ->
-  (forall n, valid_number n = true -> is_int64 n = false -> sj_exact n = true ->
-             sj_parse n = if sf_is_finite (dbl n) then Some (dbl n) else None) ->
-  forall j, wf_sj j = true -> K6 fmt_ryu j = false ->
-  there_and_back lossy sj_parse fmt_ryu j = Ok j.
+  forall j, wf_sj j = true -> there_and_back fmt_ryu j = Ok j.
 Proof. exact there_and_back_id. Qed.
 
 (* json-syntax -> serde_json -> json-syntax: equal up to entry order and number spelling *)
-Theorem C18_back_and_there : forall lossy sj_parse fmt_ryu,
+Theorem C18_back_and_there : forall fmt_ryu,
   (forall x, sf_is_finite x = true -> (canonical_f64 x = true \/ exists n, x = dbl n) ->
      valid_number (fmt_ryu x) = true /\ is_int64 (fmt_ryu x) = false /\ dbl (fmt_ryu x) = x) ->
-  (forall n, valid_number n = true -> is_int64 n = false -> sj_exact n = true ->
-             sj_parse n = if sf_is_finite (dbl n) then Some (dbl n) else None) ->
-  forall v, wf_nums v = true -> nodup_keysb v = true -> nums64 v = true -> K5 v = false ->
-  exists j w, into_sj lossy sj_parse v = Ok j /\ from_sj fmt_ryu j = Ok w /\ detour_ok v w = true.
+  forall v, nodup_keysb v = true -> nums64 v = true ->
+  exists j w, into_sj v = Ok j /\ from_sj fmt_ryu j = Ok w /\ detour_ok v w = true.
 Proof. exact back_and_there_preserves. Qed.
 
 (* "up to entry order": detour_ok compares with key_sorted v, which is v up to a permutation
@@ -39,37 +32,52 @@ Proof. exact back_and_there_preserves. Qed.
 Theorem C18_key_sorted_is_permutation : forall v, PermEq (key_sorted v) v.
 Proof. exact key_sorted_permeq. Qed.
 
-(* neither direction panics *)
+(* neither direction panics, on any value *)
 Theorem C18_from_never_panics : forall fmt_ryu,
-  (forall x, sf_is_finite x = true -> (canonical_f64 x = true \/ exists n, x = dbl n) -> valid_number (fmt_ryu x) = true) ->
+  (forall x, sf_is_finite x = true -> (canonical_f64 x = true \/ exists n, x = dbl n) ->
+     valid_number (fmt_ryu x) = true) ->
   forall j, wf_sj j = true -> exists v, from_sj fmt_ryu j = Ok v.
 Proof. exact from_sj_total. Qed.
 
-Theorem C18_no_panic : forall lossy sj_parse,
-  (forall n, valid_number n = true -> is_int64 n = false -> sf_is_finite (dbl n) = true ->
-             sj_parse n = None -> sf_is_finite (lossy n) = true) ->
-  forall v, wf_nums v = true -> K3 v = false -> exists j, into_sj lossy sj_parse v = Ok j.
+Theorem C18_no_panic : forall v, exists j, into_sj v = Ok j.
 Proof. exact into_sj_total. Qed.
 
-(* the known classes are genuine deviations *)
-Theorem C18_K3_refuted : forall lossy sj_parse,
-  sj_parse w_huge_s = None -> lossy w_huge_s = S754_infinity false ->
-  nodup_keysb w_huge = true /\ nums64 w_huge = false /\ into_sj lossy sj_parse w_huge = Panic 2.
-Proof. exact K3_panics. Qed.
+(* outside the stated domain: a magnitude beyond the doubles becomes null *)
+Theorem C18_overflow_is_null : forall n, K3num n = true -> into_sj (VNum n) = Ok JNull.
+Proof. exact overflow_is_null. Qed.
 
-Theorem C18_K6_refuted : forall lossy sj_parse fmt_ryu,
-  fmt_ryu (sf_of_bits w_float_bits) = w_float_printed ->
-  sj_parse w_float_printed = Some (sf_of_bits (w_float_bits + 1)) ->
-  wf_sj w_float = true /\ K6 fmt_ryu w_float = true /\
-  there_and_back lossy sj_parse fmt_ryu w_float = Ok (JNum (SFloat (sf_of_bits (w_float_bits + 1)))) /\
-  sj_eqb (JNum (SFloat (sf_of_bits (w_float_bits + 1)))) w_float = false /\
-  dbl w_float_printed = sf_of_bits w_float_bits.
-Proof. exact K6_refuted. Qed.
+(* non-vacuity: results for the executable printer fmt_ryu_ref *)
+Example C18_back_and_there_instance :
+  nodup_keysb ex_v = true /\ nums64 ex_v = true /\
+  back_and_there fmt_ryu_ref ex_v = Ok ex_v_detour /\ detour_ok ex_v ex_v_detour = true.
+Proof. vm_compute. repeat split. Qed.
+
+Example C18_there_and_back_instance :
+  wf_sj ex_j = true /\
+  from_sj fmt_ryu_ref ex_j =
+    Ok (VObj [(s2l "a", VNum (s2l "18446744073709551615"));
+              (s2l "b", VArr [VNum (s2l "-5"); VNum (s2l "1.5"); VNum (s2l "5.04796620613671e-172"); VNull]);
+              ([0xE9], VObj [(s2l "x", VStr [0x10000]); (s2l "y", VNum (s2l "-0.0"))])]) /\
+  there_and_back fmt_ryu_ref ex_j = Ok ex_j.
+Proof. vm_compute. repeat split. Qed.
+
+Example C18_printer_instance :
+  (let s := fmt_ryu_ref (dbl (s2l "1e5")) in
+   s = s2l "100000.0" /\ valid_number s = true /\ is_int64 s = false /\ dbl s = dbl (s2l "1e5")) /\
+  (let x := sf_of_bits 0x1c5f367fcf16b755 in
+   fmt_ryu_ref x = s2l "5.04796620613671e-172" /\ dbl (fmt_ryu_ref x) = x).
+Proof. vm_compute. repeat split. Qed.
+
+Example C18_overflow_instance : into_sj w_huge = Ok JNull.
+Proof. vm_compute. reflexivity. Qed.
 
 Print Assumptions C18_there_and_back.
 Print Assumptions C18_back_and_there.
 Print Assumptions C18_key_sorted_is_permutation.
 Print Assumptions C18_from_never_panics.
 Print Assumptions C18_no_panic.
-Print Assumptions C18_K3_refuted.
-Print Assumptions C18_K6_refuted.
+Print Assumptions C18_overflow_is_null.
+Print Assumptions C18_back_and_there_instance.
+Print Assumptions C18_there_and_back_instance.
+Print Assumptions C18_printer_instance.
+Print Assumptions C18_overflow_instance.
